@@ -949,8 +949,8 @@ impl Matcher for CursorPositionMatcher {
         // "\x1b[{row};{col}R"
         let mut nums = numbers_decode(&data[2..data.len() - 1], b';');
         Some(TerminalEvent::CursorPosition(Position {
-            row: nums.next()? - 1,
-            col: nums.next()? - 1,
+            row: nums.next()?.checked_sub(1)?,
+            col: nums.next()?.checked_sub(1)?,
         }))
     }
 }
